@@ -58,18 +58,27 @@ def check(ctx):
         ctx.bad('C08.P1', 'anchor', '', 'purge_old_deletes not found (fail closed)')
         return
     names = field_names(facts, 'datacake_crdt::orswot::OrSWotSet')
+    # ---- SEM: per-key transfer functions over the finite domain of order types (P-ORDER).  Where a function is summarised,
+    # its summary subsumes the structural clauses about it (P1, the polarity / same-predicate parts of P2, P5).
+    import orswot_abs
+    sem_purge = orswot_abs.check_purge(ctx, facts, 'C08.SEM')
+    sem_wa = orswot_abs.check_will_apply(ctx, facts, 'C08.SEM')
+    sem_merge = orswot_abs.check_merge(ctx, facts, 'C08.SEM')
+    sem_mut = orswot_abs.check_mutators(ctx, facts, 'C08.SEM')
+    sem_diff = orswot_abs.check_diff(ctx, facts, 'C08.SEM')
     # ---- P1 -------------------------------------------------------------------
-    eff = self_field_effects(facts, cg, purge)
+    eff = {} if sem_purge else self_field_effects(facts, cg, purge)
     touched = sorted(names[f] if isinstance(f, int) and f < len(names) else str(f) for f in eff)
-    ctx.ob('C08.P1', 'purge_old_deletes|fields-mutated', touched == ['dead'], site(purge),
-           'purge_old_deletes mutates field(s) %s of the set%s' % (touched, '' if touched == ['dead'] else
-           ' — purge must remove tombstones only; mutating live entries / version stamps changes what is live or what is refused'),
-           {'effects': {str(k): v for k, v in eff.items()}})
+    if not sem_purge:
+        ctx.ob('C08.P1', 'purge_old_deletes|fields-mutated', touched == ['dead'], site(purge),
+               'purge_old_deletes mutates field(s) %s of the set%s' % (touched, '' if touched == ['dead'] else
+               ' — purge must remove tombstones only; mutating live entries / version stamps changes what is live or what is refused'),
+               {'effects': {str(k): v for k, v in eff.items()}})
 
     # ---- P5: purge may only ever see tombstones of keys that are not live: entries / dead are kept exclusive by every mutator
     import lww
     mbodies = [facts.body(OS + x) for x in ('insert_with_source', 'delete_with_source', 'merge')]
-    if all(mbodies):
+    if all(mbodies) and not (sem_merge and sem_mut):
         nx = lww.check_exclusive_maps(ctx, facts, 'C08.P5', mbodies)
         ctx.floor('C08.P5', 'new-stamp stores into entries / dead', nx, 4)
     # ---- P2 ---------------------------------------------------------------------
@@ -83,10 +92,20 @@ def check(ctx):
             if _n and _n.startswith('datacake_crdt::') and any(op_local(a) is not None and 'alloc::vec::Vec<' in _d.local_ty(op_local(a)) and _d.local_ty(op_local(a)).startswith('&mut') for a in _t['args']):
                 users['diff-per-key-test'] = facts.body(_n)
     pp = gate.gate_predicates(facts, purge)
+    if len(pp) != 1:
+        # by role: the read-only boolean predicate of the version vectors
+        cands = [b_ for b_ in facts.bodies.values() if b_.crate == 'datacake_crdt' and b_.kind == 'method' and not b_.d['promoted']
+                 and b_.name.startswith(NV) and b_.argc == 2 and b_.local_ty(0) == 'bool' and b_.local_ty(1).startswith('&') and not b_.local_ty(1).startswith('&mut')
+                 and b_.local_ty(2).endswith('HLCTimestamp')]
+        if len(cands) == 1:
+            pp = {cands[0].name.rsplit('::', 1)[1]: (set(), None)}
     PRED = sorted(pp)[0] if len(pp) == 1 else 'is_ts_before_last_observed_event'     # the cut-off predicate, found by role
     ctx.ob('C08.P2', 'purge|predicate', set(pp) == {PRED} or len(pp) == 1, site(purge),
            'purge selects tombstones with NodeVersions predicate(s) %s' % sorted(pp))
+    sem_of = {'purge_old_deletes': sem_purge, 'will_apply': sem_wa, 'merge': sem_merge, 'diff-per-key-test': sem_diff}
     for uname, ub in users.items():
+        if sem_of.get(uname):
+            continue
         if ub is None:
             ctx.bad('C08.P2', uname + '|anchor', '', '%s not found' % uname)
             continue
@@ -97,13 +116,13 @@ def check(ctx):
                'all consulted' if not missing else 'NOT consulted: an operation not newer than a purged delete is no longer refused / is listed again'))
     # will_apply: predicate true -> returns false
     wa = users['will_apply']
-    if wa is not None:
+    if wa is not None and not sem_wa:
         r_true = bool_eval(wa, lambda b, t: True if cname(t) == NV + PRED else None)
         ctx.ob('C08.P2', 'will_apply|refuses-when-before-cutoff', r_true == {False}, site(wa),
                'will_apply returns %s when the cut-off predicate is true (must be exactly {False})' % r_true)
     # purge: kept iff predicate false
     calls = list(purge.calls())
-    for pb, pt in [(b, t) for b, t in calls if cname(t) == NV + PRED]:
+    for pb, pt in ([] if sem_purge else [(b, t) for b, t in calls if cname(t) == NV + PRED]):
         # find the switch on (possibly negated) result
         cmp_edges = None
         cur, pol = pt['dest']['l'], True
@@ -135,7 +154,7 @@ def check(ctx):
                'purge keeps / purges on the wrong edge of the cut-off predicate')
     # every tombstone taken out of the map is either put back or reported (no iteration drops one silently)
     nx = [(b, t) for b, t in calls if cname(t) == 'core::iter::traits::iterator::Iterator::next']
-    if nx:
+    if nx and not sem_purge:
         flow_p = Flow(purge)
         re_n = ResultEdges(purge, flow_p, nx[0][0], include_option=True)
         starts = [e[1] for e in re_n.ok]
